@@ -267,6 +267,9 @@ def subscript(base: tuple, idx: tuple) -> tuple:
             return subscript(a[1], idx)
         if all(_provably_distinct(k, idx) for k, _ in a[2]):
             return subscript(a[1], idx)
+    if a is not None and a[0] == "seq" and isinstance(a[2], tuple) and a[2][0] == "range":
+        # element idx of [f(v) for v in range(lo, hi)] is f(lo + idx)   (beta reduction; in-range index assumed)
+        return subst(a[1], f"#{a[3]}", add(a[2][1], idx))
     if a is not None and a[0] in ("tuple", "list"):
         ci = is_const(idx)
         if ci is not None and ci.denominator == 1 and -len(a[1]) <= ci < len(a[1]):
